@@ -143,6 +143,13 @@ class Interface(object):
             o1 = getattr(cls, '__orig__', None) or cls
             o2 = getattr(c, '__orig__', None) or c
 
+            # two arrays are the same type only when their items have the same
+            # name: it's the name of the element in the one type published.
+            if o1 in (Array, Iterable) and o2 in (Array, Iterable) \
+                               and list(cls._type_info) != list(c._type_info):
+                raise ValueError("classes %r and %r have conflicting names: "
+                             "'%s' but different member names" % (cls, c, key))
+
             if o1 is o2:
                 return True
 
